@@ -228,8 +228,18 @@ def mask_info(st, m):
     # term at a probe index (z3 terms are hash-consed, ids are stable while the
     # term is kept alive in the cache)
     memo = {}
-    key = (canon_key(z3.simplify(m.at(_PROBE)), memo),
-           canon_key(z3.simplify(m.n), memo))
+    pr = z3.simplify(m.at(_PROBE))
+    nkey = canon_key(z3.simplify(m.n), memo)
+    if z3.is_not(pr):
+        # elementwise complement of a mask already seen (x < n vs x >= n)
+        bkey = (canon_key(pr.arg(0), memo), nkey)
+        if bkey in cache:
+            return cache[bkey][0], False
+    else:
+        nk = (canon_key(z3.simplify(z3.Not(pr)), memo), nkey)
+        if nk in cache:
+            return cache[nk][0], False
+    key = (canon_key(pr, memo), nkey)
     if key not in cache:
         cache = dict(cache)
         cache[key] = (MaskInfo(st, m), m)
